@@ -251,3 +251,62 @@ func GenDiv(thorough bool) *rapid.Generator[DivCase] {
 		return c
 	})
 }
+
+// DivSeq : several divider calls one after another in one process; a later call often has the
+// same dividend, list length and sum of priorities as the one before it but another list (the
+// dividers are functions of their arguments alone: what was divided before must not matter).
+type DivSeq struct {
+	Calls []DivCase `json:"calls"`
+}
+
+// CheckDivSeq applies the C14 oracle to every call in turn.
+func CheckDivSeq(q DivSeq) error {
+	for i, c := range q.Calls {
+		if err := CheckC14(c); err != nil {
+			return fmt.Errorf("call #%d of the sequence: %w", i, err)
+		}
+	}
+	return nil
+}
+
+// GenDivSeq draws 2..5 calls.
+func GenDivSeq(thorough bool) *rapid.Generator[DivSeq] {
+	return rapid.Custom(func(t *rapid.T) DivSeq {
+		base := GenDiv(thorough)
+		var q DivSeq
+		q.Calls = append(q.Calls, base.Draw(t, "first"))
+		for i, n := 0, rapid.IntRange(1, 4).Draw(t, "more"); i < n; i++ {
+			prev := q.Calls[len(q.Calls)-1]
+			if rapid.IntRange(0, 3).Draw(t, "fresh") == 0 || len(prev.Prios) < 2 {
+				q.Calls = append(q.Calls, base.Draw(t, "fresh"))
+				continue
+			}
+			// same divider, dividend, length and sum; one unit moved from one priority to another
+			next := prev
+			next.Prios = append([]uint(nil), prev.Prios...)
+			next.Pre = cloneMap(prev.Pre)
+			a := rapid.IntRange(0, len(next.Prios)-1).Draw(t, "from")
+			b := rapid.IntRange(0, len(next.Prios)-1).Draw(t, "to")
+			k := uint(rapid.IntRange(1, 3).Draw(t, "units"))
+			if a != b && next.Prios[a] >= k {
+				next.Prios[a] -= k
+				next.Prios[b] += k
+			}
+			sort.Slice(next.Prios, func(i, j int) bool { return next.Prios[i] > next.Prios[j] })
+			distinct := true
+			for j := 1; j < len(next.Prios); j++ {
+				if next.Prios[j] == next.Prios[j-1] {
+					distinct = false
+				}
+			}
+			if !distinct || uint64(next.Dividend)*uint64(next.Prios[0]) >= 1<<53 {
+				next = base.Draw(t, "fallback")
+			}
+			if rapid.Bool().Draw(t, "otherdiv") {
+				next.Which = prev.Which
+			}
+			q.Calls = append(q.Calls, next)
+		}
+		return q
+	})
+}
